@@ -70,7 +70,8 @@ def run_rhd_rad(exe, d, cf, seed, timeout=90):
     with two photoionization iterations each; opacities chosen so that packets are absorbed and cross subgrids."""
     r = hydrolib.run_rhd(exe, d, tuple(cf["n"]), tuple(cf["per"]), threads=cf["nthr"], steps=2, ncell_per_sub=(4, 4, 4),
                          seed=seed, jitter=cf["nthr"] > 1, timeout=timeout, radiation=True, nphoton=cf["np"], niter=2,
-                         diffuse=0.4 if cf["diffuse"] else None, copy_level=cf["copy"], sigma_h="3.e-6 m^2",
+                         diffuse=0.4 if cf["diffuse"] and not cf.get("nohandler") else None,
+                         extra="  diffuse field: true\n" if cf.get("nohandler") else "", copy_level=cf["copy"], sigma_h="3.e-6 m^2",
                          luminosity=1.e20, alpha_h="1.e12 m^3 s^-1", nsources=cf["nsrc"],
                          nbuffers=4000, ntasks=40000, xh=1.0)
     return r["rc"], r["trace"], r["cmd"], r["env"]
@@ -202,6 +203,8 @@ def run(c):
     nrhd = 6 if tier == "quick" else 60
     rsample = rmust + rng.sample([x for x in rcand if x not in rmust], nrhd - len(rmust))
     sample = sample + [dict(x, rhd=1) for x in rsample]
+    # "diffuse field: true" without a re-emission handler block (the factory's default gives none): absorbed packets end
+    sample.append(dict(rng.choice([x for x in rcand if x["diffuse"] == 1 and x["nthr"] == 2 and max(x["n"]) > 1]), rhd=1, nohandler=1))
 
     # ---- 3. real iterations ------------------------------------------------------------
     def rjob(k):
@@ -287,8 +290,8 @@ def run(c):
         c.sample({"config": results[0]["cf"], "records": results[0]["sample"]})
     vlib.log("real iterations: %d configurations (2 iterations each; %d of them the radiation step of the RHD simulation, "
              "2 steps x 2 iterations), %d traces accepted by Layer A" % (
-                 len(sample), len(rsample), c.cov["traces_validated_against_impl"]))
-    c.cov["rhd_radiation_runs"] = len(rsample)
+                 len(sample), len(rsample) + 1, c.cov["traces_validated_against_impl"]))
+    c.cov["rhd_radiation_runs"] = len(rsample) + 1
 
     # ---- 4. self-test ---------------------------------------------------------------------
     good = next((o for o in results if o["status"] == "accepted"), None)
